@@ -121,6 +121,17 @@ def t_fail_on_neg(x=0, *a, **k):
     return x * x
 
 
+def t_swallow_on_neg(x=0, *a, **k):
+    """answers non-negative inputs; on a negative one it never ends and swallows every exception (only a forced kill stops it)"""
+    if x < 0:
+        while True:
+            try:
+                time.sleep(0.005)
+            except Exception:
+                pass
+    return x * x
+
+
 # ---- C02: a menu of deterministic, picklable targets and values
 class Custom:
     def __init__(self, a, b=None):
